@@ -117,6 +117,17 @@ def invariant(ch, kind, T, label, add_fail, ctxinfo):
         if not abs(P[k] - ref) <= 1e-12 * (1 + abs(ref)):
             add_fail(f"probs/{name}/probability-not-posterior-at-sample-over-T", f"index {k} of {S.shape[0]}: stored {P[k]!r}, posterior/T {ref!r}", **ctxinfo)
             break
+    # the same correspondence through burned / thinned read-outs (sample k of the read-out <-> probability k of the read-out)
+    for burn, thin in ((1, 1), (2, 3), (S.shape[0] - 1, 1)):
+        if burn < 0 or burn >= S.shape[0]:
+            continue
+        with lib("burned-readout"):
+            Sb = np.asarray(ch.get_sample(burn=burn, thin=thin))
+            Pb = np.asarray(ch.get_probabilities(burn=burn, thin=thin))
+        if Sb.shape[0] != Pb.shape[0]:
+            add_fail(f"probs/{name}/burned-read-outs-misaligned", f"burn={burn} thin={thin}: {Sb.shape[0]} samples, {Pb.shape[0]} probabilities", **ctxinfo)
+        elif any(abs(Pb[k] - post(Sb[k]) / Tq) > 1e-12 * (1 + abs(Pb[k])) for k in range(Sb.shape[0])):
+            add_fail(f"probs/{name}/burned-read-outs-misaligned", f"burn={burn} thin={thin}: probability k is not the posterior at sample k", **ctxinfo)
     with lib("mode"):
         m = np.asarray(ch.mode()).reshape(-1)
     rows = [k for k in range(S.shape[0]) if np.array_equal(S[k], m)]
@@ -128,9 +139,14 @@ def invariant(ch, kind, T, label, add_fail, ctxinfo):
 
 
 OPS = {"step": None, "adv1": 1, "adv3": 3}
+EXTRA_OPS = ("bnd",)  # limits set mid-run that exclude the current value (Gibbs / Metropolis only)
 
 
 def apply_op(ch, kind, op):
+    if op == "bnd":
+        cur = float(ch.get_last()[0])
+        ch.set_boundaries(0, (cur + 0.1, cur + 1.5))
+        return
     if op == "step":
         if kind == "EnsembleSampler":
             ch.advance(1)
@@ -276,15 +292,21 @@ def run(ck):
                 for d in (1, 2):
                     if ck.quick and d == 1 and kind in ("HamiltonianChain",):
                         continue
-                    hists = [list(h) for n in range(1, depth + 1) for h in itertools.product(OPS, repeat=n)]
                     # maximal histories only (prefixes are visited on the way); rotate by seed
-                    hists = [h for h in hists if len(h) == depth]
                     if ck.quick:
-                        hists = hists[ck.seed % 3 :: 3]
+                        hists = [list(h) for h in itertools.product(OPS, repeat=3)][ck.seed % 3 :: 3]
+                        for h in hists:
+                            cases.append(dict(sampler=kind, T=T, limits=limits, d=d, history=h, bound=2))
                     else:
-                        hists = hists[(ck.seed + d) % 2 :: 2]  # 40 of the 81 depth-4 histories per configuration
-                    for h in hists:
-                        cases.append(dict(sampler=kind, T=T, limits=limits, d=d, history=h, bound=bound))
+                        # depth 4 with 2 deviations on half of the 81 histories, depth 3 with 3 deviations on all 27
+                        for h in [list(h) for h in itertools.product(OPS, repeat=4)][(ck.seed + d) % 2 :: 2]:
+                            cases.append(dict(sampler=kind, T=T, limits=limits, d=d, history=h, bound=2))
+                        for h in [list(h) for h in itertools.product(OPS, repeat=3)]:
+                            cases.append(dict(sampler=kind, T=T, limits=limits, d=d, history=h, bound=3))
+    for kind in ("GibbsChain", "MetropolisChain"):
+        for T in (1.0, 2.5):
+            for h in (["step", "bnd", "step"], ["bnd", "adv1", "bnd"], ["adv3", "bnd", "adv1"], ["step", "step", "bnd"]):
+                cases.append(dict(sampler=kind, T=T, limits=None, d=2, history=h, bound=2))
     ck.run_cases("history", cases, chunk=2)
     sc = []
     for kind in SAMPLERS:
@@ -300,6 +322,6 @@ def run(ck):
                                                      ("PcaChain", 2, 1, "unsorted"))], chunk=1)
     ck.rule = ("every history of the listed depth over {take_step, advance(1), advance(3)} per sampler x limits x T x d, each explored over all outcomes of the "
                "scripted random stream within the deviation bound; invariant after every call. Distinct non-trivial = (sampler/limits, T, decision kind reached)")
-    ck.assume("posterior is a fixed smooth function; draws restricted to a 2-letter normal alphabet and 2 quantiles; deviation bound %d" % bound)
+    ck.assume("posterior is a fixed smooth function; draws restricted to a 2-letter normal alphabet and 2 quantiles; deviation bound 2 at depth %d%s" % (depth, "" if ck.quick else ", 3 at depth 3"))
     ck.extra["history_depth"] = depth
-    ck.extra["deviation_bound_completed"] = bound
+    ck.extra["deviation_bound_completed"] = 2 if ck.quick else "2 at depth 4, 3 at depth 3"
